@@ -305,6 +305,14 @@ pub fn run(ctx: &Arc<Ctx>) {
     for (i, c) in cfgs.iter().take(2).enumerate() {
         cases.push(Case { cfg: c.clone(), klen: 16 + i, adv: [0, 7], tag: "honest/public-only-master-key-object".into() });
     }
+    // identity lengths (both parties) 0..=300 in steps of 7 (thorough: 3)
+    let n_cfg_before_idlen = cfgs.len();
+    for il in (0..=300usize).step_by(ctx.tier.pick(7usize, 3)) {
+        cfgs.push(mk(&annex.ke, &format!("len:{}", il), &format!("len:{}", 300 - il), &mut g));
+    }
+    for c in cfgs.iter().skip(n_cfg_before_idlen) {
+        cases.push(Case { cfg: c.clone(), klen: 16, adv: [0, 0], tag: "honest/idlen-sweep".into() });
+    }
     // key lengths around the first carry of the KDF block counter into its second byte (256 blocks of 32 bytes)
     for klen in [8160usize, 8191, 8192, 8193, 8225] {
         cases.push(Case { cfg: cfgs[0].clone(), klen, adv: [0, 0], tag: "honest/klen>=8160".into() });
